@@ -1,4 +1,4 @@
-import Dawn.Proofs.LoaderInv5
+import Dawn.Proofs.LoaderInvB
 /-!
 The cycle-detection argument for the fixed loader (the last-publisher argument of `design-probes/runner-walk`, on a
 functional graph). `Seg s x a b`: from `a`, following one or more `loading` pointers *published before `x`'s own*
@@ -230,10 +230,13 @@ theorem inv6_fstep {P : Project} {s s' : State} {t : Tid} (inv2 : Inv2 s) (inv3 
       subst hp
       have := inv.wait_safe t f rest d hs (Or.inl hpc)
       exact ⟨this.1, fun h => this.2 (seg_setPc.1 h)⟩
-  case runFin f rest hpc hst htd =>
+  case runBroken f rest hpc hst hb =>
     refine inv6_step inv (fun t1 h => by simp [setPc]) (fun t1 h => by simp [setPc, upd, h]) (keepEq rfl rfl) ?_ ?_ ?_
     all_goals (intros; simp_all [setPc])
-  case runCall f rest d ds hpc hst htd =>
+  case runFin f rest hpc hst hb htd =>
+    refine inv6_step inv (fun t1 h => by simp [setPc]) (fun t1 h => by simp [setPc, upd, h]) (keepEq rfl rfl) ?_ ?_ ?_
+    all_goals (intros; simp_all [setPc])
+  case runCall f rest d ds hpc hst hb htd =>
     refine inv6_step inv (fun t1 h => by simp [setPc]) (fun t1 h => by simp [setPc, upd, h]) (keepEq rfl rfl) ?_ ?_ ?_
     all_goals (intros; simp_all [setPc])
   case callFound d hpc hr =>
@@ -277,7 +280,7 @@ theorem inv6_fstep {P : Project} {s s' : State} {t : Tid} (inv2 : Inv2 s) (inv3 
   case unsetOk f rest hpc hst =>
     refine inv6_step inv (fun t1 h => by simp [upd, h]) (fun t1 h => by simp [upd, h]) (keepUnset rfl rfl) ?_ ?_ ?_
     all_goals (intros; simp_all)
-  case unsetCyc f rest hpc hst =>
+  case unsetFail r f rest hpc hr hst =>
     refine inv6_step inv (fun t1 h => by simp [setPc]) (fun t1 h => by simp [setPc, upd, h]) (keepUnset rfl rfl) ?_ ?_ ?_
     all_goals (intros; simp_all [setPc])
   case fin r f rest hpc hst =>
